@@ -198,6 +198,44 @@ def pcw_claims(s, I):
         out.append(("descriptor: record count = points added", pc.fields[names.index("records")] == U64(len(s.vals))))
         out.append(("descriptor: file offset = physical address of the section", pc.fields[names.index("file_offset")] == phys(c0)))
         out += bounds_claims(I, s, pc)
+        out += limits_claims(I, s, pc)
+    return out
+
+
+def limits_claims(I, s, pc):
+    """C14: unless overridden, colour / intensity limits of the registered descriptor equal the declared range of THEIR OWN attribute type"""
+    out = []
+    names = I.struct_fields["PointCloud"]
+    pn = [nm for nm, _ in s.proto]
+
+    def declared(d):
+        if d[0] in ("Integer", "ScaledInteger"):
+            return (d[0], d[1]), (d[0], d[2])
+        return None, None
+
+    def same(val, want):
+        if want is None:
+            return z3.BoolVal(val.vname == "None")
+        if val.vname != "Some" or val.fields[0].vname != want[0]:
+            return z3.BoolVal(False)
+        return val.fields[0].fields[0] == I64(want[1])
+    cl = pc.fields[names.index("color_limits")]
+    has_color = "ColorRed" in pn
+    out.append(("colour limits present exactly when the prototype has colour", z3.BoolVal((cl.vname == "Some") == has_color)))
+    if cl.vname == "Some" and has_color:
+        cf = I.struct_fields["ColorLimits"]
+        for ch, attr in (("red", "ColorRed"), ("green", "ColorGreen"), ("blue", "ColorBlue")):
+            lo, hi = declared(s.proto[pn.index(attr)][1])
+            v = cl.fields[0]
+            out.append(("default %s limits = declared range of %s" % (ch, attr), z3.And(same(v.fields[cf.index(ch + "_min")], lo), same(v.fields[cf.index(ch + "_max")], hi))))
+    il = pc.fields[names.index("intensity_limits")]
+    has_int = "Intensity" in pn
+    out.append(("intensity limits present exactly when the prototype has intensity", z3.BoolVal((il.vname == "Some") == has_int)))
+    if il.vname == "Some" and has_int:
+        lf = I.struct_fields["IntensityLimits"]
+        lo, hi = declared(s.proto[pn.index("Intensity")][1])
+        v = il.fields[0]
+        out.append(("default intensity limits = declared range of the intensity type", z3.And(same(v.fields[lf.index("intensity_min")], lo), same(v.fields[lf.index("intensity_max")], hi))))
     return out
 
 
@@ -339,6 +377,9 @@ PROTOS = {
     "xyz int11/double/const": [("CartesianX", ("Integer", -5, 2000)), ("CartesianY", ("Double",)), ("CartesianZ", ("Integer", 7, 7))],
     "xyz single/scaled33/int1": [("CartesianX", ("Single",)), ("CartesianY", ("ScaledInteger", -(1 << 32), 5, 0.001, 2.0)), ("CartesianZ", ("Integer", 0, 1))],
     "xyz int64 full range": [("CartesianX", ("Integer", -(1 << 63), (1 << 63) - 1)), ("CartesianY", ("Integer", 0, 255)), ("CartesianZ", ("Integer", -1, 0))],
+    "xyz + rgb of three different ranges + u16 intensity": [("CartesianX", ("Single",)), ("CartesianY", ("Single",)), ("CartesianZ", ("Single",)),
+                                                          ("ColorRed", ("Integer", 0, 255)), ("ColorGreen", ("Integer", 0, 65535)), ("ColorBlue", ("Integer", 16, 1023)),
+                                                          ("Intensity", ("ScaledInteger", -50, 4000, 0.25, 1.0))],
 }
 
 
